@@ -470,6 +470,10 @@ func (k *Keeper) SetAllPrevConsKeys(ctx sdk.Context, prevConsKeys []types.PrevCo
 		bz := k.cdc.MustMarshal(wrappedKey.ToTmProtoKey())
 
 		store.Set(types.KeyForChainIDAndOperatorToPrevConsKey(chainID, opAccAddr), bz)
+		// a replaced key keeps resolving to its operator until it is pruned (slashing by the
+		// old key, key re-use check): rebuild the reverse lookup that key replacement left in
+		// place, the same way setOperatorConsKeyForChainIDUnchecked does for the current key.
+		store.Set(types.KeyForChainIDAndConsKeyToOperator(chainID, wrappedKey.ToConsAddr()), opAccAddr.Bytes())
 	}
 	return nil
 }
